@@ -359,7 +359,7 @@ def gen_value3(rng, s, kinds, hostile):
     dup = False
     if pairs and rng.random() < 0.12:
         # a key given twice: the second value valid for the field, invalid for it, or of the wrong shape
-        f = rng.choice(fs)
+        f = rng.choice([g for g in fs if g["t"] == "dict"] or fs) if rng.random() < 0.5 else rng.choice(fs)
         r = rng.random()
         if r < 0.4:
             second = gen_value3(rng, f, kinds, hostile)
@@ -409,8 +409,8 @@ def value_forms(v, acc):
         if v and all((isinstance(x, list) and len(x) == 2) or (isinstance(x, dict) and "tuple" in x and len(x["tuple"]) == 2)
                      or (isinstance(x, dict) and set(x) == {"s"} and len(x["s"]) == 2) for x in v):
             acc.add("form-pair-list")
-        if any(isinstance(x, dict) and set(x) == {"s"} and len(x["s"]) == 2 for x in v):
-            acc.add("form-2char-text-item")
+            if any(isinstance(x, dict) and set(x) == {"s"} for x in v):
+                acc.add("form-2char-text-pair")
         for x in v:
             value_forms(x, acc)
     elif isinstance(v, dict):
@@ -500,8 +500,8 @@ class C03(Property):
             "quantifier names (dict, pair lists with list / tuple / 2-character-text items, namedtuple, generator, partial key sets, "
             "repeated keys, non-text keys, hostile shapes); non-trivial = set() returned True on a container holding at least 2 leaves; "
             "distinct = canonical case JSON")
-    quick_n = 2500
-    thorough_n = 60000
+    quick_n = 25000
+    thorough_n = 150000
 
     def corpus(self):
         S = lambda name, k=0: {"t": "leaf", "name": name, "opt": False, "k": k}
@@ -530,8 +530,49 @@ class C03(Property):
                    "kinds": kinds, "value": {"s": ""}}
         int_key = {"schema": dict(ab, policy="duck"), "kinds": kinds, "value": {"kd": [[{"s": "a"}, {"s": "x"}], [{"i": 1}, {"s": "y"}]]}}
         list_key = {"schema": dict(ab, policy="off"), "kinds": kinds, "value": [[[{"s": "a"}], {"s": "x"}]]}   # unhashable key
+        L = lambda member, name=None: {"t": "list", "name": name, "opt": False, "prune": False, "max": 1024, "member": member}
+        sx, sy = {"s": "x"}, {"s": "y"}
+        more = [
+            # pair items that are a 2-key dict (unpacks into its keys) and a 2-field namedtuple (into its values)
+            {"schema": ab, "kinds": kinds, "value": [{"d": [["a", sx], ["b", sy]]}, {"nt": [["p", {"s": "b"}], ["q", sy]]}]},
+            # a sequence iterates a dict's keys, a namedtuple's values, a text's characters
+            {"schema": L(S(None)), "kinds": kinds, "value": {"d": [["a", sx], ["b", sy]]}},
+            {"schema": L(S(None)), "kinds": kinds, "value": {"nt": [["p", sx], ["q", sy]]}},
+            {"schema": L(ab), "kinds": kinds, "value": {"s": "ab"}},
+            # an unhashable key: TypeError under every policy; a sequence swallows it
+            {"schema": ab, "kinds": kinds, "value": [[[sx], sx]]},
+            {"schema": L(dict(ab, policy="duck")), "kinds": kinds, "value": [[[{"tuple": [[]]}, sx]]]},
+            {"schema": dict(ab, policy="duck"), "kinds": kinds, "value": [[{"s": "a"}, sx], [{"tuple": [{"tuple": []}, [{"i": 1}]]}, sx]]},
+            # keys that are no texts: skipped (duck / off), KeyError (subset), KeyError (strict, before the missing ones)
+            {"schema": dict(ab, policy="duck"), "kinds": kinds, "value": [[{"none": 1}, sx], [{"tuple": [{"s": "a"}]}, sx], [{"s": "b"}, sy]]},
+            {"schema": ab, "kinds": kinds, "value": {"kd": [[{"s": "a"}, sx], [{"none": 1}, sy]]}},
+            {"schema": dict(ab, policy="strict"), "kinds": kinds, "value": {"kd": [[{"i": 3}, sy]]}},
+            {"schema": dict(ab, policy="strict"), "kinds": kinds, "value": [{"s": "ax"}, {"s": "by"}, {"s": "az"}]},
+            {"schema": dict(ab, policy="strict"), "kinds": kinds, "value": {"gen": [{"s": "ax"}]}},
+            # an unknown key inside a list member: KeyError leaves the list; a strict member's TypeError does not
+            {"schema": L(ab), "kinds": kinds, "value": [{"d": [["a", sx]]}, {"d": [["zz", sx]]}]},
+            {"schema": L(dict(ab, policy="strict")), "kinds": kinds, "value": [{"d": [["a", sx]]}]},
+            # wrong arity / non-iterable items; an empty tuple / generator / namedtuple is an empty mapping
+            {"schema": ab, "kinds": kinds, "value": [{"tuple": [{"s": "a"}, sx, sy]}]},
+            {"schema": ab, "kinds": kinds, "value": [{"tuple": [{"s": "a"}, sx]}, {"i": 5}]},
+            {"schema": D([S("a"), S("b")], mode="sparse"), "kinds": kinds, "value": {"gen": []}},
+            {"schema": D([S("a"), S("b")], mode="sparseReq"), "kinds": kinds, "value": {"nt": []}},
+            # repeated keys on leaves: 2-character texts; a DateYYYYMMDD keeps its members on None, not on garbage
+            {"schema": ab, "kinds": kinds, "value": {"tuple": [{"s": "ax"}, {"s": "ay"}]}},
+            {"schema": D([comp("d")]), "kinds": kinds,
+             "value": [[{"s": "d"}, {"date": [2020, 1, 2]}], [{"s": "d"}, {"none": 1}], [{"s": "d"}, {"s": "garbage"}], [{"s": "d"}, {"none": 1}]]},
+            {"schema": D([comp("d")]), "kinds": kinds, "value": [[{"s": "d"}, {"date": [2020, 1, 2]}], [{"s": "d"}, {"i": 7}]]},
+            # repeated key on a sparse member that is a list, and on a nested dict that is reset by the second value
+            {"schema": D([L(S(None), "l"), S("z")], mode="sparse"), "kinds": kinds,
+             "value": [[{"s": "l"}, [sx, sy]], [{"s": "l"}, {"i": 3}], [{"s": "z"}, sx]]},
+            {"schema": D([D([S("a"), comp("d")], name="m")]), "kinds": kinds,
+             "value": [[{"s": "m"}, {"d": [["d", {"date": [2020, 1, 2]}]]}], [{"s": "m"}, [[{"s": "d"}, {"none": 1}]]]]},
+            # natives of every shape handed to leaf-likes
+            {"schema": D([S("a"), {"t": "joined", "name": "j", "opt": False, "k": 7, "member": S(None, 0)}, comp("d")]), "kinds": kinds,
+             "value": [[{"s": "a"}, {"tuple": [sx]}], [{"s": "j"}, {"tuple": [sx, {"s": ""}]}], [{"s": "d"}, {"nt": [["p", sx]]}]]},
+        ]
         return [bool_partial, joined, pair_list, two_char, one_text, nt, dup_kept, dup_reset, date_garbage, date_dup, noprune,
-                int_key, list_key]
+                int_key, list_key] + more
 
     def generate(self, rng, n, tier):
         for _ in range(n):
